@@ -113,3 +113,9 @@ pub fn labels_distinct_sizes(x: &Array2<f64>, seed: u64, classes: usize) -> Arra
     }
     y
 }
+
+/// Points spread uniformly over a square/cube of the given side (many small clusters fit in).
+pub fn uniform(seed: u64, n: usize, p: usize, side: f64) -> Array2<f64> {
+    let mut r = SplitMix(seed ^ 0x0f1f);
+    Array2::from_shape_fn((n, p), |_| side * r.unit())
+}
